@@ -91,6 +91,12 @@ pub trait Scenario: Sync {
     }
     /// The cases of a tier, in a fixed order (pure function of tier and seed).
     fn plan(&self, thorough: bool, verif_seed: u64) -> Vec<CaseSpec>;
+    /// The same plan as an indexable view.  Scenarios with tens of millions of tiny cases override this with a
+    /// view that computes case i on demand: 17 processes each holding a materialised 27-million-entry plan
+    /// need ~50 GB.
+    fn plan_view(&self, thorough: bool, verif_seed: u64) -> PlanView {
+        PlanView::Listed(self.plan(thorough, verif_seed))
+    }
     fn run_case(&self, spec: &CaseSpec, text: bool) -> CaseReport;
     /// whether the systematic part of the plan enumerates its finite space completely
     fn exhaustive(&self, _thorough: bool) -> bool {
@@ -119,6 +125,48 @@ pub fn seeds_for(prop: &str, family: &str, verif_seed: u64, n: usize) -> Vec<u64
         h = h.wrapping_mul(0x100000001b3);
     }
     (0..n as u64).map(|i| amiquip_simrt::choice::mix(verif_seed, h, i)).collect()
+}
+
+/// Consecutive blocks of seeded cases: block k holds `n` cases of family `family`, case i has the seed
+/// `seeds_for(prop, family, verif_seed, n)[i]` - exactly what `plan_random` lists.
+pub struct RandomBlock {
+    pub prop: &'static str,
+    pub family: &'static str,
+    pub n: usize,
+}
+
+pub enum PlanView {
+    Listed(Vec<CaseSpec>),
+    Blocks { verif_seed: u64, blocks: Vec<RandomBlock> },
+}
+
+impl PlanView {
+    pub fn len(&self) -> usize {
+        match self {
+            PlanView::Listed(v) => v.len(),
+            PlanView::Blocks { blocks, .. } => blocks.iter().map(|b| b.n).sum(),
+        }
+    }
+    pub fn get(&self, i: usize) -> Option<CaseSpec> {
+        match self {
+            PlanView::Listed(v) => v.get(i).cloned(),
+            PlanView::Blocks { verif_seed, blocks } => {
+                let mut i = i;
+                for b in blocks {
+                    if i < b.n {
+                        let mut h = 0xcbf29ce484222325u64;
+                        for x in b.prop.bytes().chain(b.family.bytes()) {
+                            h ^= x as u64;
+                            h = h.wrapping_mul(0x100000001b3);
+                        }
+                        return Some(CaseSpec { family: b.family.to_string(), seed: amiquip_simrt::choice::mix(*verif_seed, h, i as u64), params: vec![], choices: None });
+                    }
+                    i -= b.n;
+                }
+                None
+            }
+        }
+    }
 }
 
 pub fn plan_random(prop: &str, family: &str, verif_seed: u64, n: usize) -> Vec<CaseSpec> {
